@@ -17,12 +17,14 @@
     - [compile_straightline_correct_partial]: the simulation for straight-line code of any length
       (all opcodes without control flow except rem_s).
     - [compile_block_correct_partial]: the simulation for whole function bodies built from the
-      constructs accepted by [blocks_ok]: straight-line code, result-less block / loop / if / if-else
-      entered at an empty operand stack, br and unreachable (last in their body), br_if, any nesting depth,
-      back edges to loop labels; forward jump targets are read from the back-patched final code.
+      constructs accepted by [blocks_ok]: straight-line code, block (with or without result) / loop /
+      if / if-else entered at an empty operand stack, br (also carrying a value to a value-typed block),
+      unreachable and return (last in their body), br_if to result-less labels, any nesting depth, back
+      edges to loop labels; forward jump targets are read from the back-patched final code, block results
+      travel through the reserved register.
       [compile_loop_correct_partial] is the same statement (loops are part of [blocks_ok]).
-    NOT proved (correspondence-only, see design/C01.md): calls, br_table, return, values carried
-    through [end] / [br] (block results), blocks entered with operands below them. *)
+    NOT proved (correspondence-only, see design/C01.md): calls, br_table, results of if-else / loop /
+    the function itself, blocks entered with operands below them, br_if carrying a value (KF-C01-1). *)
 From Coq Require Import ZArith NArith List Bool.
 From CB Require Import Common.IntN Common.IntNProofs Wasm.Syntax Wasm.SyntaxProofs Wasm.Sem Wasm.SemProofs
      Wasm.Compile Wasm.Machine Wasm.KnownClasses Wasm.Engine Wasm.Witnesses Wasm.EngineProofs Wasm.NumOpsProofs
@@ -287,9 +289,11 @@ Print Assumptions straightline_memory_nonvacuous.
 (** ** Stage B: structured control without loops and calls.
     For a function without result whose body [is] consists of the constructs accepted by [blocks_ok]
     ([Wasm/BlockSim.v], [ctl_ok]: instructions accepted by [straight_ok] with local indices below [nl];
-    [block], [loop] and [if] / [if-else] without result type, entered when the operand stack is empty;
-    [br l] and [unreachable] as the last instruction of their body and [br_if l] (to block, if, loop or
-    function labels), all labels being result-less - so neither
+    [block] with or without result type, [loop] and [if] / [if-else] without result type, all entered when
+    the operand stack is empty (the body of a value-typed block must reach its [end]); [br l] (to any
+    label; to a value-typed block it carries the top of the stack into the block's reserved register),
+    [unreachable] and [return] as the last instruction of their body, and [br_if l] to result-less labels
+    only - so neither
     KF-C01-1 (br_if carrying a value) nor KF-C01-2 (local.set below an open conditional region with the
     local on the stack) can occur, which is what [~ KnownClass] would exclude), compiled by
     [compile_ops] from the function-entry state including the final [end] (which back-patches the jumps
@@ -359,6 +363,20 @@ Theorem compile_loop_correct_partial :
         end.
 Proof. exact compile_block_correct. Qed.
 Print Assumptions compile_loop_correct_partial.
+
+(** non-vacuity for block results: a value-typed block reached by fall-through and by a [br] carrying a
+    value out of a nested [if]; another value-typed block inside a loop body *)
+Example block_result_nonvacuous :
+  blocks_ok 2 blk_cx val_body = true
+  /\ (exists v' sF, compile_ops blk_cx (flatten_body val_body) (init_vstate None) (init_fstate 2) = Some (v', sF)
+       /\ c_bp sF = [] /\ c_stack sF = []
+       /\ c_next sF < 2147483648 /\ Z.of_nat (length (c_consts sF)) < 2147483648
+       /\ Z.of_nat (length (c_out sF ++ [IReturn])) < 4294967296)
+  /\ (forall host cap m st,
+        exec_instr host cap m 200 st [VI32 3; VI32 0] [] (Block None val_body) = RNormal st [VI32 0; VI32 17] []
+        /\ exec_instr host cap m 200 st [VI32 0; VI32 5] [] (Block None val_body) = RNormal st [VI32 0; VI32 22] []).
+Proof. exact ex_val. Qed.
+Print Assumptions block_result_nonvacuous.
 
 (** non-vacuity for loops: a counting loop (back edge [br 0], exit [br_if 1] out of loop and block) followed
     by a guarded [unreachable]; runs that iterate 4 and 0 times, one that traps, one that runs out of fuel *)
